@@ -92,26 +92,26 @@ type Frame struct {
 }
 
 type Exec struct {
-	prog    *Program
-	vc      *VC
-	mode    string // "seq" | "conc"
-	obs     []*Obligation
-	obIndex map[string]*Obligation
-	guards  []string
-	fnName  string // function under verification (display name)
-	topCon  *Contract
-	stack   []string // inlining stack (FullName)
-	init0   map[string]Term
-	notes   []string
-	noteSet map[string]bool
-	dropped map[string]bool
-	externs map[string]bool
-	inlined map[string]bool
-	havocs  map[string]bool
-	maxInl  int
-	errors  []string
-	safety  bool
-	curPos  string
+	prog        *Program
+	vc          *VC
+	mode        string // "seq" | "conc"
+	obs         []*Obligation
+	obIndex     map[string]*Obligation
+	guards      []string
+	fnName      string // function under verification (display name)
+	topCon      *Contract
+	stack       []string // inlining stack (FullName)
+	init0       map[string]Term
+	notes       []string
+	noteSet     map[string]bool
+	dropped     map[string]bool
+	externs     map[string]bool
+	inlined     map[string]bool
+	havocs      map[string]bool
+	maxInl      int
+	errors      []string
+	safety      bool
+	curPos      string
 	axiomsDone  bool
 	epochN      int
 	qn          int
@@ -740,11 +740,39 @@ func (e *Exec) loopInvs(fr *Frame, node ast.Node) (int, []Clause) {
 }
 
 func (e *Exec) checkInvs(st *State, fr *Frame, ord int, invs []Clause, phase string, old *State) {
+	// every clause is checked against the same state (not against its siblings already assumed): the sibling
+	// clauses of the post-state are consequences of the same premises, and quantified ones only slow the solver
+	if phase == "preserved" && fr.contract != nil {
+		for _, a := range fr.contract.LoopDo[ord] {
+			sc := &Ctx{st: st, fr: fr, spec: true, old: old}
+			e.assign(a.LHS, e.eval(a.RHS, sc), sc)
+		}
+		for _, h := range fr.contract.LoopHints[ord] {
+			sc := &Ctx{st: st, fr: fr, spec: true, old: old}
+			phi := e.evalCond(h.Expr, sc)
+			name := fmt.Sprintf("%s#loop%d.hint[%s]", e.fnName, ord, h.Label)
+			e.assert(st, name, "loop-hint", phi, h.Text, fmt.Sprintf("%s:%d", shortFile(h.File), h.Line), e.modelVars(st, fr))
+		}
+	}
+	base := st.pc
+	var phis []string
 	for _, inv := range invs {
 		sc := &Ctx{st: st, fr: fr, spec: true, old: old}
+		st.pc = base
 		phi := e.evalCond(inv.Expr, sc)
 		name := fmt.Sprintf("%s#loop%d.inv[%s].%s", e.fnName, ord, inv.Label, phase)
 		e.assert(st, name, "loop-invariant", phi, inv.Text, fmt.Sprintf("%s:%d", shortFile(inv.File), inv.Line), e.modelVars(st, fr))
+		phis = append(phis, phi)
+	}
+	st.pc = base
+	if !st.dead() {
+		for _, phi := range phis {
+			if len(e.guards) == 0 {
+				e.assume(st, phi)
+			} else {
+				e.assume(st, fmt.Sprintf("(=> (and %s) %s)", strings.Join(e.guards, " "), phi))
+			}
+		}
 	}
 }
 
@@ -768,7 +796,7 @@ func (e *Exec) forStmt(x *ast.ForStmt, st *State, fr *Frame) Flow {
 	}
 	ord, invs := e.loopInvs(fr, x)
 	entry := fr.entry
-	e.checkInvs(st, fr, ord, invs, "entry", entry)
+	e.checkInvs(st.clone(), fr, ord, invs, "entry", entry) // on a copy: the loop head assumes the invariant afresh
 	eff := e.effectsOf(fr, x.Body, x.Post, x.Cond)
 	head := st.clone()
 	e.loopHavoc(head, fr, eff, ord)
@@ -867,7 +895,7 @@ func (e *Exec) rangeStmt(x *ast.RangeStmt, st *State, fr *Frame) Flow {
 		if x.Value != nil && coll.T.K == KSlice {
 			bind(x.Value, st, e.seqGet(coll, "0"))
 		}
-		e.checkInvs(st, fr, ord, invs, "entry", entry)
+		e.checkInvs(st.clone(), fr, ord, invs, "entry", entry) // on a copy: the loop head assumes the invariant afresh
 		eff := e.effectsOf(fr, x.Body)
 		head := st.clone()
 		e.loopHavoc(head, fr, eff, ord)
@@ -922,7 +950,7 @@ func (e *Exec) rangeStmt(x *ast.RangeStmt, st *State, fr *Frame) Flow {
 		if x.Value != nil {
 			bind(x.Value, st, e.Zero(coll.T.Elem))
 		}
-		e.checkInvs(st, fr, ord, invs, "entry", entry)
+		e.checkInvs(st.clone(), fr, ord, invs, "entry", entry) // on a copy: the loop head assumes the invariant afresh
 		eff := e.effectsOf(fr, x.Body)
 		head := st.clone()
 		e.loopHavoc(head, fr, eff, ord)
